@@ -47,6 +47,9 @@ SIGS2 = {
     # only k=0 types, one of them a pseudo-scalar: any shortcut that treats "no tensor-valued channel" as
     # "ordinary scalar network" (e.g. a plain affine normalisation) breaks under reflections once trained
     "s-ps>s-ps": ([((0, 0), 1), ((0, 1), 1)], [((0, 0), 1), ((0, 1), 1)]),
+    # no pseudo-type: every (input, target) pair has its filters, channel counts are equal on each side and the
+    # hidden signature (signature_union) lists the vector before the scalar
+    "s-v>v-s": ([((0, 0), 1), ((1, 0), 1)], [((1, 0), 1), ((0, 0), 1)]),
 }
 # for the ConvContract-only net also a rank-2 type
 SIGS2_CONV = dict(SIGS2)
@@ -238,6 +241,29 @@ def execute(ctx: Ctx, cfg: dict) -> dict:
                 return current_epoch >= self.epochs
 
         cond = KeepEpoch(epochs=cfg["epochs"], verbose=0)
+    elif cfg["stop"] == "reused":
+        # ONE TrainLoss object used for two consecutive ml.train calls: first a non-equivariant baseline (the
+        # model with noise on every array leaf, filters included), then -- below -- the equivariant model with a
+        # loss that never beats the baseline's.  What the second call returns must come from ITS OWN history.
+        import equinox as eqx
+        import jax
+        import jax.numpy as jnp
+
+        cond = ml.TrainLoss(patience=0, min_delta=0.0)
+        orig = cond.stop
+
+        def capped(*a, **k):
+            calls["n"] += 1
+            r = orig(*a, **k)
+            return bool(r) or calls["n"] > cfg["epochs"]
+
+        cond.stop = capped
+        nrng = np.random.Generator(np.random.PCG64(cfg["run_seed"] + 17))
+        baseline = jax.tree_util.tree_map(
+            lambda a: a + jnp.asarray(0.3 * nrng.normal(size=a.shape), dtype=a.dtype) if eqx.is_inexact_array(a) else a,
+            model0)
+        ml.train(X, Y, map_and_loss, baseline, random.PRNGKey(cfg["train_seed"] + 1), cond, cfg["batch"], optimizer, **kw)
+        calls["n"] = 0
     else:  # patience on the validation loss; hard cap so that the run is bounded whatever happens
         cond = ml.ValLoss(patience=cfg["patience"], min_delta=0.0)
         orig = cond.stop
@@ -249,6 +275,10 @@ def execute(ctx: Ctx, cfg: dict) -> dict:
 
         cond.stop = capped
     loss_f = map_and_loss if cfg["loss"] == "smse" else make_pull_loss(model0, cfg["run_seed"] + 1, 0.05)
+    if cfg["stop"] == "reused":
+        def loss_f(model, x, y, aux_data):  # same gradients, a value the baseline's best loss always beats
+            v, aux = map_and_loss(model, x, y, aux_data)
+            return v + 1.0e6, aux
     trained, _, train_loss, val_loss = ml.train(
         X, Y, loss_f, model0, random.PRNGKey(cfg["train_seed"]), cond, cfg["batch"], optimizer, **kw
     )
@@ -345,6 +375,19 @@ def execute(ctx: Ctx, cfg: dict) -> dict:
             worst_margin = d1 / tol1
             worst_rep = dict(rep, input_kind=kind, tol=tol1,
                              input={str(k): np.asarray(v).tolist() for k, v in x.items()})
+    obs["premise_eager"] = None
+    if not obs["premise_ok"]:
+        # the compiled initial model is not equivariant.  Is the model AS CONSTRUCTED (called eagerly, before any
+        # pytree round trip) equivariant?  Then the premise of the property holds for the object handed to ml.train
+        # and what training returns is judged.
+        try:
+            x = equiv.random_blocks(rng, sig_in, D, spatial, kind="normal")
+            d0e, _, _ = equiv.worst_defect(model0, x, D, torus, gs[:3], jit=False)
+            obs["premise_eager"] = bool(d0e <= 1e-3)
+            obs["defect_initial_eager"] = d0e
+        except Exception as e:  # noqa: BLE001
+            obs["premise_eager"] = False
+            obs["defect_initial_eager"] = f"raised {type(e).__name__}"
     obs["group_elements"] = len(gs)
     obs["defect_initial"] = max(i["defect_initial"] for i in obs["inputs"])
     obs["defect_trained"] = max(i["defect_trained"] for i in obs["inputs"])
@@ -381,7 +424,9 @@ def judge(ctx: Ctx, cfg: dict, obs: dict):
         if obs["bank_problem"] and obs["params_finite"]:
             ctx.violation("oracle", "after training " + obs["bank_problem"], case)
         return
-    if not premise:
+    if not premise and obs.get("premise_eager"):
+        ctx.notes.setdefault("premise_only_eager", []).append(cfg["name"])
+    elif not premise:
         # the initial model is not equivariant: C07's business, the premise of C09 is not met
         ctx.notes.setdefault("premise_failed", []).append({"config": cfg["name"], "defect_initial": obs["defect_initial"]})
         return
@@ -553,6 +598,10 @@ def plan(ctx: Ctx) -> list:
         out.append(base_cfg(rng, arch=["resnet", "block"][ctx.seed % 2], optimizer="sgd", lr=0.5,
                             loss="smse+pull", batch=int(rng.integers(2, 5)), epochs=1, n_train=None, sig="s-ps>s-ps",
                             use_bias=pick(bias_modes[:2]), activation=pick(acts), preact=bool(rng.integers(2))))
+        out.append(base_cfg(rng, arch="conv", optimizer=pick(["sgd", "adam"]), lr=0.02, batch=2, epochs=2, sig="s-v>v-s",
+                            use_bias=pick(bias_modes), depth=pick([1, 2, 3])))
+        out.append(base_cfg(rng, arch=["conv", "block"][ctx.seed % 2], optimizer="sgd", lr=0.02, batch=2, epochs=2,
+                            stop="reused", sig=pick(["s-v>v-s", "s-v>s-v-ps"]), use_bias=pick(bias_modes)))
         return out
     # thorough: 3 optimisers x 5 architectures, then variations
     for arch in ["conv", "block", "unet", "resnet", "dilresnet"]:
@@ -583,6 +632,12 @@ def plan(ctx: Ctx) -> list:
         dict(arch="block", optimizer="adam", lr=0.03, batch=1, epochs=3, preact=True, sig="v-ps>v-ps", use_bias="mean"),
         dict(arch="conv", optimizer="adamw", lr=0.05, weight_decay=0.5, batch=2, epochs=3, sig="s-v>m-pv", validation=True,
              stop="val", patience=1),
+        dict(arch="conv", optimizer="adam", lr=0.02, batch=2, epochs=2, sig="s-v>v-s", depth=2),
+        dict(arch="resnet", optimizer="sgd", lr=0.02, batch=2, epochs=2, sig="s-v>v-s"),
+        dict(arch="unet", optimizer="adamw", lr=0.02, weight_decay=0.2, batch=2, epochs=1, sig="s-v>v-s", spatial=[8, 8]),
+        dict(arch="conv", optimizer="sgd", lr=0.02, batch=2, epochs=2, stop="reused", sig="s-v>v-s"),
+        dict(arch="block", optimizer="sgd", lr=0.02, batch=2, epochs=3, stop="reused", sig="s-v>s-v-ps"),
+        dict(arch="resnet", optimizer="sgd", lr=0.02, batch=1, epochs=2, stop="reused", sig="s-ps>s-ps"),
         dict(arch="conv", optimizer="adamw", lr=0.02, weight_decay=0.2, batch=2, epochs=2, D=3, spatial=[3, 3, 3],
              is_torus=[True, True, True], n_train=2, input_kinds=["normal"], n_group=7),
     ]
@@ -632,8 +687,10 @@ def set_texts(ctx: Ctx):
     ctx.rule = (
         "one case = one real ml.train history (architecture x signature incl. pseudo-types x optimiser in "
         "{sgd, adam, adamw+decay (+ sgd-momentum, sgd with coupled decay in thorough)} x batch size 1..4 x 1-4 epochs x "
-        "with/without validation data x bias mode x activation; EpochStop, ValLoss or a user-defined best-model "
-        "selection; smse loss, in one history per tier and architecture plus a quadratic pull of all parameters "
+        "with/without validation data x bias mode x activation; EpochStop, ValLoss, a user-defined best-model "
+        "selection, or ONE TrainLoss object reused for two consecutive ml.train calls (a non-equivariant baseline first, "
+        "whose loss the second call never beats); one history per run on a signature without pseudo-types (complete "
+        "filter table, equal channel counts, hidden signature listing the vector first); smse loss, in one history per tier and architecture plus a quadratic pull of all parameters "
         "towards generic far-away values), observed "
         "at the returned model: static structure, filter-bank leaves, parameter leaves, and model(g.x) = g.model(x) "
         "for all 7 non-identity g of B_2 (7 seeded elements of B_3 incl. a reflection and an axis swap for the d=3 run) "
@@ -649,7 +706,7 @@ def set_texts(ctx: Ctx):
         "inputs are generic (no ties of pixel norms inside a pooling patch), NaN/inf excluded",
         "autodiff, stop_gradient and the optax update rules are modelled by the update shape "
         "(new parameters, one common bank factor), not verified; the runs look for exactly that shape",
-        "C07 (equivariance for every parameter value given an invariant bank) is a hypothesis of trained_equivariant",
+        "C07 (equivariance for every parameter value given an invariant bank) enters trained_equivariant as hypothesis hC07, discharged by Properties/C07.lean (hC07_discharged)",
     ]
     ctx.trusted_extra = [
         "harness/refs.py reference group action (diffed against the Lean spec by the C02 check)",
